@@ -15,6 +15,7 @@ Nodes
     ["raise", tref, body]         tref: ["t", typename] | ["e", src]
     ["return", ref]
     ["comment", body]
+    ["tree", ref, body, opts]
 ref: ["n", name] | ["e", python-source]
 A body is a list of nodes.
 
@@ -233,6 +234,11 @@ class Printer:
             self.tag('raise', [_ref(n[1], st)], 'open')
             self.body(n[2])
             self.tag('raise', [], 'close')
+        elif k == 'tree':
+            ref, body, opts = n[1], n[2], n[3]
+            self.tag('tree', [_ref(ref, st)] + _opts(opts, st), 'open')
+            self.body(body)
+            self.tag('tree', [], 'close')
         elif k == 'comment':
             self.tag('comment', [], 'open')
             self.body(n[1])
@@ -274,7 +280,7 @@ def count_tags(nodes):
                 n += count_tags(b)
             if x[2] is not None:
                 n += count_tags(x[2])
-        elif k in ('unless', 'with', 'raise'):
+        elif k in ('unless', 'with', 'raise', 'tree'):
             n += count_tags(x[2])
         elif k == 'in':
             n += count_tags(x[2])
